@@ -269,7 +269,7 @@ class Tensor:
     def __init__(self, rank_ids=None, name="", shape=None, root=None):
         self.rank_ids = list(rank_ids or [])
         self.name = name
-        self.shape = shape
+        self.shape = list(shape) if shape is not None else None
         if shape is not None and len(shape) != len(self.rank_ids):
             raise ModelError("shape %r does not match rank ids %r" % (shape, self.rank_ids))
         if root is not None:
@@ -358,8 +358,8 @@ class Tensor:
         rec(self.root, (), 0)
         return out
 
-    def _build(self, rank_ids, items, merge=False):
-        t = Tensor(rank_ids=rank_ids, name=self.name)
+    def _build(self, rank_ids, items, merge=False, shape=None):
+        t = Tensor(rank_ids=rank_ids, name=self.name, shape=shape)
         for cs, p in items:
             if not cs:
                 t.root = Payload(p)
@@ -381,7 +381,8 @@ class Tensor:
             raise ModelError("swizzle %r -> %r" % (self.rank_ids, rank_ids))
         perm = [self.rank_ids.index(r) for r in rank_ids]
         items = [(tuple(cs[i] for i in perm), p) for cs, p in self._items()]
-        return self._build(rank_ids, items)
+        shape = [self.shape[i] for i in perm] if self.shape is not None else None
+        return self._build(rank_ids, items, shape=shape)
 
     def _split(self, depth, partfn):
         """partfn(sorted coords of a fiber, fiber) -> list of (upper coord, [coords])"""
@@ -389,7 +390,10 @@ class Tensor:
             raise ModelError("split depth %d of %r" % (depth, self.rank_ids))
         rid = self.rank_ids[depth]
         new_ids = self.rank_ids[:depth] + [rid + ".1", rid + ".0"] + self.rank_ids[depth + 1:]
-        t = Tensor(rank_ids=new_ids, name=self.name)
+        shape = None
+        if self.shape is not None:
+            shape = self.shape[:depth] + [self.shape[depth], self.shape[depth]] + self.shape[depth + 1:]
+        t = Tensor(rank_ids=new_ids, name=self.name, shape=shape)
 
         def rec(f, lvl):
             nf = Fiber(depth_below=len(new_ids) - 1 - lvl)
@@ -495,7 +499,11 @@ class Tensor:
             else:
                 raise ModelError("coord_style " + coord_style)
             items.append((cs[:depth] + (nc,) + cs[depth + levels + 1:], p))
-        return self._build(new_ids, items, merge=(coord_style == "absolute"))
+        shape = None
+        if self.shape is not None:
+            grp = self.shape[depth:depth + levels + 1]
+            shape = self.shape[:depth] + [grp[-1] if coord_style == "absolute" else tuple(grp)] + self.shape[depth + levels + 1:]
+        return self._build(new_ids, items, merge=(coord_style == "absolute"), shape=shape)
 
     def mergeRanks(self, depth=0, levels=1, coord_style="absolute"):
         return self.flattenRanks(depth, levels, coord_style)
@@ -512,7 +520,11 @@ class Tensor:
             if not isinstance(c, tuple) or len(c) != levels + 1:
                 raise ModelError("unflatten of %r with levels %d" % (c, levels))
             items.append((cs[:depth] + tuple(c) + cs[depth + 1:], p))
-        return self._build(new_ids, items)
+        shape = None
+        if self.shape is not None:
+            sd = self.shape[depth]
+            shape = self.shape[:depth] + (list(sd) if isinstance(sd, tuple) and len(sd) == levels + 1 else [sd] * (levels + 1)) + self.shape[depth + 1:]
+        return self._build(new_ids, items, shape=shape)
 
     def __repr__(self):
         return "T(%s_%s %r)" % (self.name, "".join(self.rank_ids), self.root)
